@@ -313,8 +313,9 @@ def run(ctx, chk):
             continue
         ua = action_of(p)
         label = G.prod_label("Print", k)
-        for mc in macros(ua["ast"]):
-            if len(mc["args"]) == 2 and mc["args"][1].get("k") == "index":
+        from asm import action_and_helper_asts
+        for mc in [m_ for ast_ in action_and_helper_asts(G, p) for m_ in macros(ast_)]:
+            if len(mc.get("args") or []) == 2 and mc["args"][1].get("k") == "index":
                 pairs, _ = split_literal(mc["args"][0].get("v", ""))
                 base = field_path(mc["args"][1]["e"])
                 if pairs and pairs[0][1] == ":02X" and base == ["vm", "mem"]:
@@ -511,7 +512,9 @@ def run(ctx, chk):
         label = G.prod_label("Print", k)
         ua = action_of(p)
         loops = []
-        walk(ua["ast"], lambda n: loops.append(n) if n.get("k") == "for" else None)
+        from asm import action_and_helper_asts
+        for ast_ in action_and_helper_asts(G, p):
+            walk(ast_, lambda n: loops.append(n) if n.get("k") == "for" else None)
         if len(loops) != 1:
             chk.undecided_("C17.R6", label, "loop not found")
             continue
